@@ -97,8 +97,9 @@ def run(ctx):
     ctx.ob('C03.pid-latch', 'USBDataPacketGenerator.current_data_pid', ok, lp[0].loc if lp else None, 'the DATA PID is chosen by data_pid and latched only in idle: %s' % [q.fmt(a) for a in lp])
     if ok:
         tbl = [x.val for x in lp[0].rhs.args[1:]]
+        ctx.need(all(isinstance(v, int) for v in tbl), 'constant entries of the PID table (found %s)' % [x.canon() for x in lp[0].rhs.args[1:]])
         ctx.ob('C03.pid-table', 'USBDataPacketGenerator.pid-table', tbl == [0xC3, 0x4B, 0x87, 0x0F], lp[0].loc,
-               'PID bytes for DATA0/DATA1/DATA2/MDATA must be C3/4B/87/0F, found %s' % [hex(v) for v in tbl])
+               'PID bytes for DATA0/DATA1/DATA2/MDATA must be C3/4B/87/0F, found %s' % [hex(v) if isinstance(v, int) else v for v in tbl])
     w = getattr(ir.signals.get('self.data_pid'), 'w', None)
     ctx.ob('C03.pid-table', 'USBDataPacketGenerator.data_pid-width', w == 2, None, 'data_pid selects one of four PIDs (width %s)' % w)
 
